@@ -110,6 +110,16 @@ def native_replay(native_factory, r):
         # expected: the process exits (crash with status 1); a hang (timeout) or a normal answer is a failure
         if 'crash' not in res:
             failed.append(CLAIMS[q])
+        else:
+            # the same after an earlier pipe was used up and the process-wide hook was replaced since (fresh process)
+            native2 = native_factory()
+            res = native2.call(which, n=50, w=W, delays_ms=[], consume=-1, then='drain', panic_at=2, prior_pipe=True, _timeout=8.0)
+            if 'crash' not in res:
+                failed.append(CLAIMS[q])
+            try:
+                native2.close()
+            except Exception:
+                pass
     return sorted(set(failed))
 
 
